@@ -185,14 +185,14 @@ def oracle_c03(rr: Any, spec: Dict[str, Any]) -> "tuple[List[Violation], Dict[st
         v.append(Violation("listen-raised", f"listen() raised {rr.err}"))
     if rr.outcome == "horizon":
         v.append(Violation("stall", "worker stopped making progress: stream ended but listen() did not return before the horizon"))
-    if A and probe and rr.outcome == "returned":
+    if A and probe and rr.outcome in ("returned", "api-horizon"):
         want = min(A, len(probe))
         if stats["probe_max"] < want:
             v.append(Violation("slot-leak", f"saturation probe ran only {stats['probe_max']} tasks concurrently, expected {want}"))
     # every valid message executed (progress)
     starts = Counter(e["m"] for e in tr if e["k"] == "task_start")
     hooks_fail = {e["m"] for e in tr if e["k"].startswith("mw_raise:pre_execute")}
-    if rr.outcome == "returned":
+    if rr.outcome in ("returned", "api-horizon"):
         for e in tr:
             if e["k"] == "yield" and e["mk"] == "valid" and e["m"] not in hooks_fail and not starts.get(e["m"]):
                 v.append(Violation("message-dropped", f"delivery {e['m']} never executed"))
@@ -423,7 +423,7 @@ def oracle_c07(rr: Any, spec: Dict[str, Any]) -> "tuple[List[Violation], int]":
             continue
         te = [e for e in evs if e["k"] == "task_end"]
         ts = first(evs, "task_start")
-        m = spec["msgs"][d] if d < len(spec.get("msgs", [])) else {}
+        m = _msg_for(spec, info)
         if ts is None:
             # the body never started: only legitimate for a timeout label that has already expired
             tmo = m.get("timeout")
@@ -497,6 +497,16 @@ def oracle_c07(rr: Any, spec: Dict[str, Any]) -> "tuple[List[Violation], int]":
     elif rr.outcome in ("deadlock", "horizon", "raised"):
         v.append(Violation("worker-stalled", f"worker outcome {rr.outcome} ({rr.err})"))
     return v, checked
+
+
+def _msg_for(spec: Dict[str, Any], info: Dict[str, Any]) -> Dict[str, Any]:
+    """The scripted message of a delivery (by token: delivery numbers follow kick order in in-memory runs)."""
+    tok = info.get("tok") or ""
+    msgs = spec.get("msgs", [])
+    for i, m in enumerate(msgs):
+        if (m.get("tok") or f"m{i}") == tok:
+            return m
+    return {}
 
 
 def _labels_want(m: Dict[str, Any], tok: str) -> Dict[str, Any]:
